@@ -172,7 +172,11 @@ where
     }
 
     async fn process_all(&mut self) -> HappyEyeballsResult<T, E> {
-        for _ in 0..self.initial_concurrency.unwrap_or(self.queue.len()) {
+        let initial = self
+            .initial_concurrency
+            .unwrap_or(self.queue.len())
+            .min(self.queue.len());
+        for _ in 0..initial {
             if let Some(future) = self.queue.pop_front() {
                 self.tasks.push(future);
             }
